@@ -3,7 +3,9 @@ from ..facts import AnalysisGap, callee, callee_generic, local_of, strip, walk
 from .. import collect, hq, sym
 
 EXPLANATION = (
-    "TPL: Formula::substitute is evaluated per arm: atomic / unary / binary formulas are homomorphic (same constructor, same connective, substitute "
+    "Every substitute function is evaluated on each constructor of its receiver (operands opaque; for terms also every sort of the variable and "
+    "every constructor of the replacement) and the decision tree of the result must be the one of the definition, so arm order, guards vs tuple "
+    "patterns, let-else and extracted helpers do not matter. TPL: Formula::substitute: atomic / unary / binary formulas are homomorphic (same constructor, same connective, substitute "
     "on every child); a quantifier that binds the substituted variable returns the formula unchanged; otherwise every bound variable that occurs "
     "in the term is renamed to the first element of Variable::sequence that is neither a variable of the term nor free in the body "
     "(FRESH-TAKEN), the renaming is applied to the body before the outer substitution, the quantifier is rebuilt with the same quantifier symbol "
